@@ -11,6 +11,9 @@
 #                      and header version have been read, the message has been translated)         pc = hdl fn j msg .. k rx ..
 # then the socket-thread operation is executed to completion in the main thread (real handle_rx /
 # recv_data_msg), then the tick is allowed to finish.  Only the schedule is forced; no code is changed.
+# `L <k> <op...>` instead of `R`: the tick is parked before the k-th LINE event of the toolkit's own code on its path
+# (sys.settrace in the clock thread): a preemption point between any two statements; `at:line:<file>:<function>:<lineno>`.
+# If the parked tick holds the queue lock the socket operation needs, the tick runs on until it has released the lock.
 # Line protocol:  sched.run <seed> <extra|-> | <setup ops> ; R <k> <op...>
 #   setup ops as in world_harness (C / D / T / J);  R k C i port hex  |  R k D i hex
 # Answer: observations per op (every op lists  fwd:<src>:<fn>:<tickfn>  for each burst handed to forward_msg; the race
@@ -26,8 +29,29 @@ from burst_fwd import BurstForwarder
 from fake_trx import FakeTRX
 
 
+TRX_DIR = os.path.realpath(sys.argv[1])
+# line-level schedules (`L k op`): the clock thread runs under a trace function that counts the line events of the toolkit's
+# own code on the tick's path and is parked before the k-th one - a preemption point between ANY two statements
+LINE_FILES = {"transceiver.py", "burst_fwd.py", "fake_trx.py", "clck_gen.py", "gsm_shared.py"}
+
+
+def _tracer(frame, event, arg):
+    co = frame.f_code
+    if event == "call":
+        fn = co.co_filename
+        if os.path.basename(fn) in LINE_FILES and os.path.realpath(os.path.dirname(fn)) == TRX_DIR and not co.co_name.startswith("<"):
+            return _tracer
+        return None
+    if event == "line":
+        GATE.point("line:%s:%s:%d" % (os.path.basename(co.co_filename), co.co_name, frame.f_lineno))
+    return _tracer
+
+
 class Gate:
     def __init__(self):
+        self.mode = "R"
+        self.parked = False
+        self.handoff = False
         self.active = False
         self.clock_ident = None
         self.stop_at = None
@@ -40,12 +64,16 @@ class Gate:
     def point(self, name):
         if not self.active or threading.get_ident() != self.clock_ident:
             return
+        if (self.mode == "L") != name.startswith("line:"):
+            return
         k = self.count
         self.count += 1
         if not self.released and self.stop_at is not None and k == self.stop_at:
             self.at = name
+            self.parked = True
             self.reached.release()
             self.go.acquire()
+            self.parked = False
 
 
 GATE = Gate()
@@ -57,24 +85,42 @@ class PausingLock:
     def __init__(self):
         self.real = threading.Lock()
 
+    def _take(self, *a, **k):
+        if GATE.active and threading.get_ident() != GATE.clock_ident and GATE.parked and self.real.locked():
+            # the socket thread needs the lock while the clock thread is parked inside its locked section: as in real life
+            # it has to wait - the clock thread runs on until it releases the lock, stops there, and the socket operation
+            # then runs to completion before the tick goes on
+            GATE.handoff = True
+            GATE.go.release()
+        return self.real.acquire(*a, **k)
+
+    def _give(self):
+        self.real.release()
+        if GATE.active and threading.get_ident() == GATE.clock_ident and GATE.handoff:
+            GATE.handoff = False
+            GATE.go.acquire()
+
     def __enter__(self):
         GATE.point("pre-lock")
-        self.real.acquire()
+        self._take()
         return self
 
     def __exit__(self, *a):
-        self.real.release()
+        self._give()
         GATE.point("post-lock")
         return False
 
     # the same boundaries when the lock is taken / released by explicit calls instead of `with`
     def acquire(self, *a, **k):
         GATE.point("pre-lock")
-        return self.real.acquire(*a, **k)
+        return self._take(*a, **k)
 
     def release(self):
-        self.real.release()
+        self._give()
         GATE.point("post-lock")
+
+    def locked(self):
+        return self.real.locked()
 
 
 _orig_tick = Transceiver.clck_tick
@@ -121,13 +167,15 @@ def do_op(app, t):
         raise ValueError("bad op")
 
 
-def race(app, k, t):
-    """tick in a second thread, stopped at boundary k; socket op in this thread; then the tick finishes"""
+def race(app, k, t, mode="R"):
+    """tick in a second thread, stopped at boundary k (mode R) or before its k-th line event (mode L); socket op in this
+    thread; then the tick finishes"""
     excs = []
     if not app.clck_gen.running:
         do_op(app, t)
         return excs, 0, "after"
     GATE.__init__()
+    GATE.mode = mode
     GATE.stop_at = k
     TICKFN[0] = app.clck_gen.clck_src
     done = threading.Event()
@@ -135,11 +183,14 @@ def race(app, k, t):
     def clock():
         GATE.clock_ident = threading.get_ident()
         GATE.active = True
+        if mode == "L":
+            sys.settrace(_tracer)
         try:
             app.clck_gen.send_clck_ind()
         except Exception as e:
             excs.append("clock:" + type(e).__name__)
         finally:
+            sys.settrace(None)
             GATE.active = False
             done.set()
             GATE.reached.release()       # wake the controller if the boundary was never reached
@@ -186,8 +237,8 @@ def run_line(line):
         extra_items = []
         exc = None
         try:
-            if t[0] == "R":
-                excs, n, at = race(app, int(t[1]), t[2:])
+            if t[0] in ("R", "L"):
+                excs, n, at = race(app, int(t[1]), t[2:], t[0])
                 extra_items = ["at:" + at, "points:%d" % n] + ["EXC:" + e for e in excs]
             else:
                 do_op(app, t)
